@@ -292,6 +292,8 @@ func c15Scenarios(tier string) []*world.Scenario {
 		}
 		add(fmt.Sprintf("%s/node-removed", n), "node-removal", "lost-on-node-removal", sc)
 		sc.Ticks = []time.Duration{1100 * time.Millisecond, 1100 * time.Millisecond}
+		// the ticker adopts a new topology on its next round: the clock only moves on after the update arrived
+		sc.TickGate = func(w *world.World) bool { return w.FaultsDone() }
 	}
 	return out
 }
@@ -397,8 +399,28 @@ func c16Scenarios(tier string) []*world.Scenario {
 				}
 				sc.Name = fmt.Sprintf("C16/%s/stall{%s}/late=%v/d%d", n, strings.Join(sub, ","), late, b)
 				nreq := len(reqs)
+				pcopy := p
 				sc.Check = func(w *world.World) []world.Violation {
-					vs := CheckStreams(w, StreamOpts{})
+					// a request whose backend reply had not been read by the proxy when the clock passed its
+					// deadline may legitimately be answered with the timeout error instead
+					lateOK := map[int]bool{}
+					if len(w.TickUnread) > 0 {
+						for i, it := range pcopy {
+							for _, rec := range w.Cmds {
+								for _, k := range it.keys {
+									if hasKey(rec.Args, k) && w.TickUnread[0][rec.Seq] {
+										lateOK[i] = true
+									}
+								}
+							}
+						}
+					}
+					vs := CheckStreams(w, StreamOpts{Alt: func(ci, j int) []byte {
+						if ci == 0 && lateOK[j] {
+							return []byte(world.RErrTimeout)
+						}
+						return nil
+					}})
 					for i := range vs {
 						c := w.Clients[0]
 						rs, _, _ := world.SplitReplies(c.Received)
